@@ -9,7 +9,9 @@ modification time set on the plain file / inside the gzip header / in the tar me
 container mtime), several --tz-offset zones, windows, block sizes, plain and streamed forms; the dates the program
 assigns are read back with -u -d; two year-less files are merged across a New Year."""
 import calendar
+import json
 import os
+import re
 import random
 import time
 from concurrent.futures import ThreadPoolExecutor
@@ -101,8 +103,10 @@ def run(pid, tier, seed):
             B = rng.choice([64, 128, 4096, 65536])
             base = ["--tz-offset=" + tzs, "--color", "never", "--blocksz", str(B), "-u", "-d", "%Y%m%dT%H%M%S"]
             exp_lines = [time.strftime("%Y%m%dT%H%M%S", time.gmtime(u)).encode() + b":" + l for u, l in zip(true_utc, lines)]
+            walk = {"locs": locs, "tz_min": tz_min, "y0": time.gmtime(mt_local).tm_year, "fos": [sum(len(x) for x in lines[:j]) for j in range(len(lines))]}
             cases.append((Case(files, base + [arg], b"".join(exp_lines), mtimes=mtimes, tz_args=False,
-                               note={"tz": tzs, "container": cont, "wraps": time.gmtime(locs[-1]).tm_year - time.gmtime(locs[0]).tm_year, "blocksz": B, "n": len(locs)}), "dates"))
+                               note={"tz": tzs, "container": cont, "wraps": time.gmtime(locs[-1]).tm_year - time.gmtime(locs[0]).tm_year, "blocksz": B, "n": len(locs),
+                                     "walk": dict(walk, A=-1)}), "dates"))
             # a window in absolute dates selects by the inferred dates
             if len(locs) >= 3 and all(locs[j] <= locs[j + 1] for j in range(len(locs) - 1)):
                 # (windows only on chronological series: C03's scope)
@@ -110,7 +114,7 @@ def run(pid, tier, seed):
                 a = true_utc[k]
                 sel = [e for u, e in zip(true_utc, exp_lines) if u >= a]
                 cases.append((Case(files, base + ["-a", gen.fmt_ts(a, 0, 0, 0), arg], b"".join(sel), mtimes=mtimes, tz_args=False,
-                                   note={"tz": tzs, "container": cont, "wraps": wraps, "blocksz": B, "window_from": k}), "window"))
+                                   note={"tz": tzs, "container": cont, "wraps": wraps, "blocksz": B, "window_from": k, "walk": dict(walk, A=a)}), "window"))
         # merge of two year-less files across a New Year
         for mi in range(6 if tier == "quick" else 60):
             y = rng.choice([2022, 2024])
@@ -126,7 +130,7 @@ def run(pid, tier, seed):
 
         def do(ic):
             i, (case, kind) = ic
-            return case.run(os.path.join(sc, "e2e", "c%d" % i))
+            return case.run(os.path.join(sc, "e2e", "c%d" % i), trace=("walk" in case.note))
 
         t0 = time.time()
         with ThreadPoolExecutor(max_workers=10) as ex:
@@ -143,10 +147,56 @@ def run(pid, tier, seed):
                 d = first_diff(rr.out, case.expected)
                 rep.violation("%s:%s" % (kind, case.note.get("container", "plain")),
                               "%s (%s): dated output differs at byte %d: got %r want %r"
-                              % (kind, case.note, d, rr.out[max(0, d - 20):d + 30], case.expected[max(0, d - 20):d + 30]), case.replay_record(rr))
+                              % (kind, {k_: v_ for k_, v_ in case.note.items() if k_ != "walk"}, d, rr.out[max(0, d - 20):d + 30],
+                                 case.expected[max(0, d - 20):d + 30]), case.replay_record(rr))
             elif len(samples) < 3 and case.note.get("wraps", 0) >= 2:
                 samples.append({"note": case.note, "first_line": case.expected.split(b"\n")[0].decode(), "last_line": case.expected.split(b"\n")[-2].decode()})
-        rep.coverage = {"states": r.distinct, "transitions": r.generated, "traces_validated_against_impl": 0,
+        # I->S: the recorded steps of process_missing_year of every run against TraceYearWalk.tla, with the table of real
+        # calendar instants of the rendered file (message k read with the modification time's year, the year before, ...)
+        recs = []
+        nwalks = 0
+        for (case, kind), rr in zip(cases, runs):
+            w = case.note.get("walk")
+            if not w or rr.crashed or rr.out != case.expected:
+                continue
+            evs = [e for e in rr.trace if e.get("ev", "").startswith("Yw")]
+            if not evs:
+                rep.note_drift("no YearWalk events recorded for a year-less file (hooks missing?)")
+                continue
+            if any(is_feb29(x) for x in w["locs"]):
+                continue
+            nyears = (time.gmtime(w["locs"][-1]).tm_year - time.gmtime(w["locs"][0]).tm_year) + 5
+            tab = []
+            for x in w["locs"]:
+                t = time.gmtime(x)
+                tab.append([calendar.timegm((w["y0"] - j, t.tm_mon, t.tm_mday, t.tm_hour, t.tm_min, t.tm_sec, 0, 0, 0)) - w["tz_min"] * 60
+                            for j in range(nyears)])
+            recs.append({"ev": "Reset", "n": len(w["locs"]), "fos": w["fos"], "abs": tab, "A": w["A"], "year": 0, "fo": 0, "ds": 0, "why": 0})
+            for e in evs:
+                recs.append({"ev": e["ev"], "n": 0, "fos": [], "abs": [], "A": 0, "year": (e.get("year", w["y0"]) - w["y0"]) if "year" in e else 0,
+                             "fo": e.get("fo", 0), "ds": e.get("ds", 0), "why": e.get("why", 0)})
+            nwalks += 1
+        walks_ok = 0
+        if recs:
+            tdir = os.path.join(sc, "tv")
+            os.makedirs(tdir, exist_ok=True)
+            tp = os.path.join(tdir, "yw.ndjson")
+            with open(tp, "w") as f:
+                for x in recs:
+                    f.write(json.dumps(x) + "\n")
+            tcfg = write_cfg(os.path.join(tdir, "tyw.cfg"), {"YL": 1, "TH": 25 * 3600, "MaxN": 64, "Y0": 0}, spec="TSpec",
+                             invariants=["TraceInv"], constraint="Progress", postcondition="Accepted")
+            tr = tlc("TraceYearWalk", tcfg, tdir, workers=1, timeout=900, env={"TRACE": tp}, deque=True, java_opts="-Xmx3g")
+            if tr.ok:
+                walks_ok = nwalks
+            elif tr.violated and tr.violated != "postcondition":
+                rep.violation("trace:YearWalk:%s" % tr.violated, "a recorded year walk violates %s of YearWalk.tla on the real calendar table" % tr.violated,
+                              {"kind": "tlc-trace", "cmd": tr.cmd, "tail": tr.output[-1500:]})
+            else:
+                m = re.search(r'"UNMATCHED",\s*(\d+)', tr.output)
+                k = int(m.group(1)) if m else 0
+                rep.note_drift("year-walk trace not explained by YearWalk.tla at record %s: %s" % (k, recs[k - 1] if 0 < k <= len(recs) else None))
+        rep.coverage = {"states": r.distinct, "transitions": r.generated, "traces_validated_against_impl": walks_ok,
                         "evaluations": len(runs), "distinct_nontrivial": nontriv,
                         "rule": "one evaluation = one run on a rendered year-less log (or a two-file merge); non-trivial = the log spans at "
                                 "least one year boundary", "samples": samples, "exhaustive": False, "checker_cmd": r.cmd}
